@@ -18,6 +18,10 @@ mod writer;
 
 pub use config::{FormatConfig, QuoteStyle};
 pub use formatter::Formatter;
+/// Verification hook (compiled only with `--cfg incan_verif`): the output writer, so that its operations can be
+/// driven directly and compared with a model.
+#[cfg(incan_verif)]
+pub use writer::FormatWriter;
 
 use crate::frontend::{diagnostics, lexer, parser};
 use thiserror::Error;
